@@ -87,7 +87,10 @@ def run_abort(case, chooser):
     verb, size, k = case["verb"], case["size"], case["k"]
     data_conn = case.get("data_conn", True)
     spy = backends.SpyControl()
-    bk = dict(backend="memory") if case["backend"] == "memory" else dict(backend="slow", delay=0.125)
+    bk = {"memory": dict(backend="memory"), "slow": dict(backend="slow", delay=0.125),
+          # the executor-based backend: every file operation is a job whose completion the explorer orders against
+          # the ABOR (the cancellation then lands while a job is in flight)
+          "async": dict(backend="async")}[case["backend"]]
     rig = Rig(chooser=chooser, n_sessions=1, tree=tree(size), spy=spy, window=1,
               server_kwargs={"block_size": B, "wait_future_timeout": 1}, **bk)
     problems = []
@@ -300,6 +303,16 @@ def build_items(tier):
                             items.append((case, bound, kinds))
                             if data_conn and verb in ("RETR", "LIST", "MLSD") and size in (B, 3 * B) and fu in ("pwd", "again"):
                                 items.append((dict(case, noread=True), 0, kinds))
+    # the executor-based backend (ABOR racing with a file operation that is in flight)
+    for verb in ("RETR", "STOR", "APPE", "LIST"):
+        for size in ((B, 3 * B) if verb != "LIST" else (B,)):
+            probe = {"verb": verb, "size": size, "k": 10 ** 9, "backend": "async", "followup": "pwd", "data_conn": True,
+                     "probe": True}
+            n = run_abort(probe, Chooser())["events"]
+            for k in range(0, n + 2):
+                case = {"verb": verb, "size": size, "k": k, "backend": "async", "followup": "again" if k % 2 else "pwd",
+                        "data_conn": True}
+                items.append((case, 1, kinds))
     # a second data connection made in advance for the next transfer, which then does without a new PASV/EPSV
     for verb in ("RETR", "STOR", "LIST"):
         size = 3 * B
@@ -345,7 +358,7 @@ def run(tier, seed, t0):
         items = items[k:] + items[:k]
     part = report.merge_all(report.pmap(_work, items) + [run_nothing(tier)])
     bounds = {"verbs": ["RETR", "STOR", "APPE", "LIST", "MLSD"], "sizes": SIZES, "block_size": B,
-              "backends": ["memory", "slow(0.125s completion latency)"],
+              "backends": ["memory", "slow(0.125s completion latency)", "AsyncPathIO (every operation an executor job)"],
               "abort_positions": "k=0 (same segment as the verb) and after every network event k=1..N+1 counted from "
                                  "the transfer verb, with and without a data connection",
               "followups": FOLLOWUPS + ["reuse: next transfer over a data connection made in advance, no new PASV"], "data_peer": ["reading", "connected but not reading (RETR/LIST/MLSD)"], "deviation_bound": 1, "send_window": "lock-step", "cases": len(items)}
